@@ -130,9 +130,11 @@ func (e *env) flush(fs *FlushSpec) {
 			}
 		}
 	}
-	e.compareState("after-flush")
-	e.checkRefCounts()
-	e.checkHooks()
+	e.checkpoint(func() {
+		e.compareStateAs("C08", "after-flush")
+		e.checkRefCounts("C08", "C03")
+		e.checkHooks()
+	})
 	e.modelStates[e.model.StateHash()] = true
 }
 
@@ -252,10 +254,22 @@ func (e *env) implSnapshot() Snapshot {
 	rc, err := e.srv.VerifRIB().RIBContents()
 	if err != nil {
 		e.report("C01", "rib-contents-error", "RIBContents failed", err.Error(), false)
+		return nil
 	}
 	snap, err := snapFromRIBContents(rc)
 	if err != nil {
 		e.report("C07", "payload-unmarshalable", "installed entry cannot be rendered as proto", err.Error(), false)
+		return nil
 	}
 	return snap
+}
+
+// compareStateAs is compareState with key-set differences attributed to prop
+// (after a Flush they are C08's: "removes every entry of exactly those instances").
+func (e *env) compareStateAs(prop, via string) {
+	snap := e.implSnapshot()
+	if snap == nil {
+		return
+	}
+	e.reportDiffs(prop, via, diffSnap(modelSnapshot(e.model, "", -1), snap))
 }
